@@ -8,7 +8,8 @@
 //! next to the real bitsets; `o=ok` at the end of the answer says that all observations equal the mirror's, and the
 //! `x=` field of every register observation reports the harness-side checks of the other trait entry points
 //! (`BitsIter::new` on the raw words, `ToString`, `{:#?}`, `Debug` inside `Option`, `Clone`/`clone_from`/`Default`,
-//! the operators with the SAME object on both sides, `!!b`).
+//! the operators with the SAME object on both sides, `!!b`; wave 5: provided iterator methods with usize arguments >= 2^32, and
+//! Display / Debug into failing `fmt::Write` sinks followed by normal renderings on the same thread).
 //!
 //! Capacities: the const generic `N` is instantiated for every entry of `NS` (1, 2, 3, 10 and the 64-word boundary
 //! family 63, 64, 65, 128, 129, and the 256-word / 512-word boundary family 256, 257, 512, 513); this list IS the
@@ -497,6 +498,90 @@ fn bits_of<const N: usize>(b: &Bitset<N>) -> Vec<bool> {
     (0..64 * N).map(|i| b.test(i)).collect()
 }
 
+/// A `fmt::Write` sink that accepts `cap` bytes and then fails (and keeps failing): a fixed-size buffer.
+struct Limited {
+    buf: String,
+    cap: usize,
+    failed: bool,
+}
+
+impl std::fmt::Write for Limited {
+    fn write_str(&mut self, s: &str) -> std::fmt::Result {
+        if self.failed {
+            return Err(std::fmt::Error);
+        }
+        let room = self.cap - self.buf.len();
+        if s.len() <= room {
+            self.buf.push_str(s);
+            Ok(())
+        } else {
+            self.buf.push_str(&s[..room]); // renderings are ASCII
+            self.failed = true;
+            Err(std::fmt::Error)
+        }
+    }
+}
+
+/// Display / Debug / `{:#?}` into sinks of capacity 0, 1, half, 64N-1 (must fail, what was accepted is a prefix of the
+/// rendering) and 64N (must succeed with the whole rendering).
+fn failing_sinks_ok<const N: usize>(b: &Bitset<N>, m: &[bool]) -> bool {
+    use std::fmt::Write;
+    let want = bits01(m);
+    let total = 64 * N;
+    let mut ok = true;
+    for (ci, &cap) in [0usize, 1, total / 2, total - 1, total].iter().enumerate() {
+        for mode in 0..3 {
+            // the reference rendering allocates per bit: N <= 3 tries every sink size with one mode each (all modes for the tiny sinks at N = 1);
+            // larger capacities try one (size, mode) per observation, rotating with the number of members
+            let sel = m.iter().filter(|&&x| x).count() + N;
+            let wanted = if N <= 3 { (ci + mode) % 3 == 0 || (N == 1 && cap <= 1) } else { ci == sel % 5 && mode == (sel / 5) % 3 };
+            if !wanted {
+                continue;
+            }
+            let mut sink = Limited { buf: String::new(), cap, failed: false };
+            let r = match mode {
+                0 => write!(sink, "{}", b),
+                1 => write!(sink, "{:?}", b),
+                _ => write!(sink, "{:#?}", b),
+            };
+            ok &= r.is_err() == (cap < total) && sink.buf.len() == cap && want.starts_with(&sink.buf);
+        }
+    }
+    ok
+}
+
+/// `nth`, `skip`, `step_by`, `take` with usize arguments 2^32, 2^32 + j, 2^40, 2^63, usize::MAX on an iterator advanced by k = 0, 1, l/2, l
+/// calls of `next`: such an argument exceeds every possible length, so `nth` / `skip` give nothing and exhaust the iterator, `step_by` gives
+/// the first remaining member only, `take` gives everything that is left.
+fn huge_args_ok<const N: usize>(b: &Bitset<N>, members: &[usize]) -> bool {
+    let l = members.len();
+    let mut ok = true;
+    let big = l > 64;
+    for k in dedup_keep_order(if big { vec![0, l / 2] } else { vec![0, 1, l / 2, l] }) {
+        let rest = &members[k.min(l)..];
+        let rem = rest.len();
+        let base = 1usize << 32;
+        let hs = if big {
+            vec![base, base + 1, usize::MAX]
+        } else {
+            vec![base, base + 1, base + rem.saturating_sub(1), base + rem, 5 * base + 2, 1usize << 40, 1usize << 63, usize::MAX]
+        };
+        for h in dedup_keep_order(hs) {
+            let mut it = adv(b, k);
+            ok &= it.nth(h).is_none() && it.next().is_none();
+            let mut it = adv(b, k);
+            ok &= it.by_ref().nth(h).is_none() && it.count() == 0;
+            ok &= adv(b, k).skip(h).next().is_none() && adv(b, k).skip(h).count() == 0;
+            ok &= adv(b, k).step_by(h).collect::<Vec<usize>>() == rest[..rem.min(1)];
+            if !big {
+                ok &= adv(b, k).take(h).collect::<Vec<usize>>() == rest;
+                ok &= adv(b, k).skip(1).step_by(h).last() == rest.get(1).copied();
+            }
+        }
+    }
+    ok
+}
+
 /// Harness-side checks of the other trait entry points of `Bitset` / `BitsIter` against the mirror `m`
 /// (`ok`, or the names of the checks that failed).  Every result is read back through `test` on all indices.
 fn extra_checks<const N: usize>(b: &Bitset<N>, m: &[bool], disp: &str, dbg: &str) -> String {
@@ -561,6 +646,26 @@ fn extra_checks<const N: usize>(b: &Bitset<N>, m: &[bool], disp: &str, dbg: &str
     }
     if b.iter_bits().count() != b.count() {
         bad.push("count-vs-iter");
+    }
+    // wave 5: provided iterator methods with arguments far beyond u32 (every BitsIter is shorter than 2^32)
+    if !huge_args_ok(b, &members) {
+        bad.push("huge-arg");
+    }
+    // wave 5: rendering into sinks that fail, then normal renderings of this and of other bitsets on the same thread
+    if !failing_sinks_ok(b, m) {
+        bad.push("failing-sink");
+    }
+    // (N >= 10: the same bitset and a fresh one alternate with the number of members - the reference rendering allocates per bit)
+    let alt = N <= 3 || (members.len() + N) % 2 == 0;
+    if alt && format!("{}", b) != bits01(m) {
+        bad.push("render-after-failed-sink");
+    }
+    let compl: Vec<bool> = m.iter().map(|&x| !x).collect();
+    let zeros = "0".repeat(64 * N);
+    if (N <= 3 && format!("{:?}", !b.clone()) != bits01(&compl)) || ((N <= 3 || !alt) && format!("{}", Bitset::<N>::new()) != zeros)
+        || format!("{}", Bitset::<1>::new()) != "0".repeat(64) || format!("{:?}", Bitset::<3>::from_u64(1)) != format!("1{}", "0".repeat(191))
+    {
+        bad.push("render-other-after-failed-sink");
     }
     if bad.is_empty() {
         "ok".to_string()
